@@ -231,11 +231,13 @@ Definition apply_fn1 (f : fn) (x : val) : res val :=
             | VNone | VBool _ | VInt _ | VObj _ _ _ => type_error | _ => Unmodelled "sum" end
   | FMax => Unmodelled "max"
   | FAddArgs => match as_num x with Some a => Ok (VInt a) | None => Unmodelled "addargs" end
+  | FRec => Ok (VTuple 0 [VTuple 0 [x]; VDict 0 false []])
   end.
 
 Definition apply_fn (f : fn) (args : list val) : res val :=
   match f, args with
   | FAddArgs, _ => match sum_ints args with Some z => Ok (VInt z) | None => Unmodelled "addargs" end
+  | FRec, _ => Ok (VTuple 0 [VTuple 0 args; VDict 0 false []])
   | _, [x] => apply_fn1 f x
   | _, _ => type_error end.     (* catalogue callables other than FAddArgs take exactly one argument *)
 
@@ -244,6 +246,15 @@ Definition call_val (f : val) (args : list val) : res val :=
   | VFun g => apply_fn g args
   | VNone | VBool _ | VInt _ | VStr _ | VList _ _ | VTuple _ _ | VDict _ _ _ | VSet _ _ _ | VObj _ _ _ => type_error
   | _ => Unmodelled "call-type" end.
+
+(* a call with keyword arguments: only the recording callable of the catalogue takes them *)
+Definition call_kw (f : val) (args : list val) (kw : list (string * val)) : res val :=
+  match kw with
+  | [] => call_val f args
+  | _ => match f with
+         | VFun FRec => Ok (VTuple 0 [VTuple 0 args; VDict 0 false (map (fun kv => (VStr (fst kv), snd kv)) kw)])
+         | VFun _ => Unmodelled "kwargs"
+         | _ => call_val f args end end.
 
 (* ---------- children for the wildcards ---------- *)
 Definition children (v : val) : res (list val) :=
